@@ -218,7 +218,11 @@ class BO(Conversions):
         """
         super().__setitem__(key, value)
 
-        for i in key:
+        # only labels that actually enter the model are given an integer label,
+        # exactly as ``PUBOMatrix.__setitem__`` does for ``variables``.
+        if not value:
+            return
+        for i in self.__class__.squash_key(key):
             if i not in self._mapping:
                 self._mapping[i] = self._next_label
                 self._reverse_mapping[self._next_label] = i
